@@ -249,6 +249,10 @@ var srvTemplates = []string{
 	"- sh;j;c1",
 	"- x;c1",
 	"- c1;d1;sh;j",
+	"- c1;b1.5;sh;rb1;j",
+	"- c1;c2;b1.5;q2.6;sh;rb1;j;c3",
+	"- c1;b1.5;x;rb1",
+	"- c1;b1.7;rb1;q1.8;d1",
 }
 
 func init() {
